@@ -1,5 +1,5 @@
 (* C04 - Decoding untrusted CTAP2 bytes never panics, aborts or hangs. *)
-From Ctap Require Import Base Schema Wire Utf8 Typed Procs Inst Tables ProcTables CborItem WireP SkipP TypedP FramingP C11P Finite.
+From Ctap Require Import Base Schema Wire Utf8 Typed Procs Inst Tables ProcTables CborItem WireP SkipP TypedP FramingP C11P Finite Utf8P StrsP.
 Local Open Scope string_scope.
 Local Open Scope Z_scope.
 
@@ -16,6 +16,15 @@ Proof. exact skip_item_total. Qed.
 (* the integer / length readers never panic and never run out of fuel *)
 Theorem c04_readers_total : forall maj i, clean (raw_u32 maj i) /\ clean (ignore_head maj BadU16 i) /\ clean (ignore_bytes maj i).
 Proof. intros. repeat split; [apply raw_u32_clean|apply ignore_head_clean|apply ignore_bytes_clean]. Qed.
+
+(* the string helpers of webauthn.rs (the slice &s[..split], push_str(..).unwrap() and the unsafe
+   unwrap_unchecked in floor_char_boundary) never reach their panic sites on text the string reader has
+   accepted (valid UTF-8), whatever its length and whatever the limit *)
+Theorem c04_string_helpers_total : forall s L, utf8_valid s = true -> 0 <= L -> clean (truncate L s).
+Proof.
+  intros s L Hs HL. apply utf8_valid_iff in Hs.
+  destruct (truncate_spec s Hs L HL) as [k [H _]]. rewrite H. exact I.
+Qed.
 
 (* the empty message and every command byte that carries no parameters or is rejected: no decoder is run *)
 Theorem c04_no_decode_without_parameters : forall e b d, 0 <= b < 256 ->
@@ -55,6 +64,7 @@ Proof. exact generated_route. Qed.
 Eval vm_compute in "ASSUMPTIONS c04_deterministic". Print Assumptions c04_deterministic.
 Eval vm_compute in "ASSUMPTIONS c04_skipper_total". Print Assumptions c04_skipper_total.
 Eval vm_compute in "ASSUMPTIONS c04_readers_total". Print Assumptions c04_readers_total.
+Eval vm_compute in "ASSUMPTIONS c04_string_helpers_total". Print Assumptions c04_string_helpers_total.
 Eval vm_compute in "ASSUMPTIONS c04_no_decode_without_parameters". Print Assumptions c04_no_decode_without_parameters.
 Eval vm_compute in "ASSUMPTIONS c04_reduces_to_typed_decoder". Print Assumptions c04_reduces_to_typed_decoder.
 Eval vm_compute in "ASSUMPTIONS c04_generated_conforms". Print Assumptions c04_generated_conforms.
